@@ -40,10 +40,13 @@ Section Sel.
   (* TrustSelectionConfig *)
   Record scfg := mkSC { c_weight : F; c_min : F; c_excl : bool }.
 
-  (* unit_interval: a trust score or weight as the policy reads it - NaN and everything not
+  (* unit_interval: a trust score or weight as the score reads it - NaN and everything not
      above 0 count as 0, everything from 1 up as 1 *)
   Definition unit (x : F) : F :=
     if ltb S (zero S) x then (if leb S (one S) x then one S else x) else zero S.
+
+  (* a NaN answer of the trust provider is read as 0 (`if trust.is_nan() { 0.0 }`) *)
+  Definition nan0 (x : F) : F := if leb S x x then x else zero S.
 
   (* compute_score *)
   Definition dscore (d : N) : F := div S (one S) (add S (one S) (div S (ofN S d) (scale S))).
@@ -51,15 +54,16 @@ Section Sel.
   Definition score (c : scfg) (key id : N) (t : F) : F :=
     mul S (dscore (d16 key id)) (tfactor (unit (c_weight c)) t).
 
-  (* a scored candidate: node, full 256-bit XOR distance, trust as read by the policy, score *)
-  Record ent := mkEnt { e_node : node; e_dist : N; e_trust : F; e_score : F }.
+  (* a scored candidate: node, full 256-bit XOR distance, the provider's answer (NaN read as
+     0) that the exclusion filter sees, the trust in [0,1] that the score uses, the score *)
+  Record ent := mkEnt { e_node : node; e_dist : N; e_raw : F; e_trust : F; e_score : F }.
   Definition entry (c : scfg) (key : N) (trust_of : N -> F) (x : node) : ent :=
     let t := unit (trust_of (n_id x)) in
-    mkEnt x (dist key (n_id x)) t (score c key (n_id x) t).
+    mkEnt x (dist key (n_id x)) (nan0 (trust_of (n_id x))) t (score c key (n_id x) t).
 
   (* kept: not excluded as untrusted, and the score is a number (`score.is_nan()` drops) *)
   Definition eligible (c : scfg) (e : ent) : bool :=
-    negb (c_excl c && ltb S (e_trust e) (c_min c)) && leb S (e_score e) (e_score e).
+    negb (c_excl c && ltb S (e_raw e) (c_min c)) && leb S (e_score e) (e_score e).
 
   (* the comparator handed to sort_by: score descending, then full distance ascending, then
      trust descending.  [lex r s] = r, ties of r broken by s. *)
@@ -80,7 +84,7 @@ Section Sel.
      witnesses: raw trust and weight, ties of the score keep the input order *)
   Definition select_old (c : scfg) (key : N) (trust_of : N -> F) (cands : list node) (count : N) : list node :=
     let ent_old x := let t := trust_of (n_id x) in
-                     mkEnt x (dist key (n_id x)) t
+                     mkEnt x (dist key (n_id x)) t t
                            (mul S (dscore (d16 key (n_id x))) (tfactor (c_weight c) t)) in
     map e_node (take count (isort sle (filter (eligible c) (map ent_old cands)))).
 
@@ -138,11 +142,11 @@ Section Sel.
         ((N.of_nat (length res) =? count) || match left_ents with [] => true | _ => false end) &&
         forallb (fun x => forallb (fun y => negb (misranked x y)) left_ents) ents
     end &&
-    forallb (fun e => negb (c_excl c && ltb S (e_trust e) (c_min c))) ents &&
+    forallb (fun e => negb (c_excl c && ltb S (e_raw e) (c_min c))) ents &&
     ranked_ok ents.
 End Sel.
 
-Arguments e_node {F}. Arguments e_dist {F}. Arguments e_trust {F}. Arguments e_score {F}.
+Arguments e_node {F}. Arguments e_dist {F}. Arguments e_raw {F}. Arguments e_trust {F}. Arguments e_score {F}.
 
 (* ---------- the two instances ---------- *)
 Definition fnum : num float :=
@@ -226,7 +230,7 @@ Definition eobs_ok (s : estate) (gone : list N) (o : eop) (r : obs) : bool :=
     | Some (qc, sc) =>
         let c := if storage then sc else qc in
         let ents := map (entry fnum c key tr) res in
-        forallb (fun e => negb (c_excl c && PrimFloat.ltb (e_trust e) (c_min c))) ents && ranked_ok fnum ents
+        forallb (fun e => negb (c_excl c && PrimFloat.ltb (e_raw e) (c_min c))) ents && ranked_ok fnum ents
     end in
   match o, r with
   | R (Find _ _), ONodes res | R (ReqFindNode _ _), ONodes res | R (ReqFindValue _), ONodes res => absent_ok gone res
